@@ -277,8 +277,8 @@ def generic_eq(it, a, b):
                 return it.run_body(body, [ra, rb])
     if isinstance(a, Ref) or isinstance(b, Ref):
         a, b = deref_all(a), deref_all(b)
-    if isinstance(a, Str) and isinstance(b, Str):
-        return str_eq(it, a.b, b.b)
+    if isinstance(a, (Str, DecStr)) and isinstance(b, (Str, DecStr)):
+        return str_eq(it, sbytes(a, 'comparison'), sbytes(b, 'comparison'))
     if isinstance(a, Dec) and isinstance(b, Dec):
         return dec_cmp(a, b, '==')
     if isinstance(a, (Enum, Agg)) and getattr(a, 'ty', None) in it.src.crate_types:
@@ -302,8 +302,8 @@ def generic_eq(it, a, b):
             return simp((a if is_sym(a) else z3.BoolVal(a)) == (b if is_sym(b) else z3.BoolVal(b)))
         w = a.size() if is_sym(a) else b.size()
         return simp(to_bv(a, w) == to_bv(b, w))
-    if isinstance(a, DecStr) or isinstance(b, DecStr):
-        raise Unsupported('comparison of symbolic decimal text')
+    if isinstance(a, (DecStr, Str)) and isinstance(b, (DecStr, Str)):
+        return str_eq(it, sbytes(a, 'comparison'), sbytes(b, 'comparison'))
     raise Unsupported('generic_eq on %r / %r' % (type(a).__name__, type(b).__name__))
 
 
@@ -1466,3 +1466,198 @@ def str_contains_str(it, args, callee):
     if not hs:
         return False
     return simp(z3.Or(hs) if len(hs) > 1 else hs[0])
+
+
+# =============================================================================== more rust_decimal API (commonly used by edits of the crate)
+
+def _dint(x):
+    return x if is_sym(x) else z3.IntVal(x)
+
+
+def _to_bv_from_int(it, m, w, signed, what):
+    """Int term/int -> bit-vector of width w (tied through bv2int so z3 stays decisive)"""
+    if not is_sym(m):
+        return norm_int(m, w, signed)
+    v = it.x.bv('%s_%d' % (what, len(it.x.syms)), w)
+    it.x.assume(m == z3.BV2Int(v, signed))
+    return v
+
+
+@model('rust_decimal::Decimal::scale', 'Decimal::scale')
+def dec_scale(it, args, callee):
+    return deref_all(args[0]).s
+
+
+@model('rust_decimal::Decimal::mantissa', 'Decimal::mantissa')
+def dec_mantissa(it, args, callee):
+    d = deref_all(args[0])
+    return _to_bv_from_int(it, d.m, 128, True, 'mant')
+
+
+@model('rust_decimal::Decimal::is_sign_negative', 'Decimal::is_sign_negative')
+def dec_is_neg(it, args, callee):
+    d = deref_all(args[0])
+    return (d.m < 0) if not is_sym(d.m) else simp(d.m < 0)
+
+
+@model('rust_decimal::Decimal::is_sign_positive', 'Decimal::is_sign_positive')
+def dec_is_pos(it, args, callee):
+    d = deref_all(args[0])
+    return (d.m >= 0) if not is_sym(d.m) else simp(d.m >= 0)
+
+
+@model('rust_decimal::Decimal::abs', 'Decimal::abs')
+def dec_abs(it, args, callee):
+    d = deref_all(args[0])
+    if not is_sym(d.m):
+        return Dec(abs(d.m), d.s)
+    return Dec(simp(z3.If(d.m >= 0, d.m, -d.m)), d.s)
+
+
+def _trunc_div(m, p):
+    """truncating (toward zero) division of an Int term / int by a positive constant"""
+    if not is_sym(m):
+        q = abs(m) // p
+        return q if m >= 0 else -q
+    return simp(z3.If(m >= 0, m / p, -((-m) / p)))
+
+
+@model('rust_decimal::Decimal::trunc', 'Decimal::trunc')
+def dec_trunc(it, args, callee):
+    d = deref_all(args[0])
+    return Dec(_trunc_div(d.m, 10 ** d.s), 0)
+
+
+@model('rust_decimal::Decimal::fract', 'Decimal::fract')
+def dec_fract(it, args, callee):
+    d = deref_all(args[0])
+    p = 10 ** d.s
+    t = _trunc_div(d.m, p)
+    r = d.m - t * p
+    return Dec(simp(r) if is_sym(r) else r, d.s)
+
+
+@model('rust_decimal::Decimal::is_integer', 'Decimal::is_integer')
+def dec_is_integer(it, args, callee):
+    d = deref_all(args[0])
+    p = 10 ** d.s
+    return (d.m % p == 0) if not is_sym(d.m) else simp(d.m % p == 0)
+
+
+@model('rust_decimal::Decimal::floor', 'Decimal::floor')
+def dec_floor(it, args, callee):
+    d = deref_all(args[0])
+    p = 10 ** d.s
+    if not is_sym(d.m):
+        return Dec(d.m // p, 0)
+    return Dec(simp(d.m / p), 0)     # z3 integer division by a positive constant is floor
+
+
+@model('rust_decimal::Decimal::ceil', 'Decimal::ceil')
+def dec_ceil(it, args, callee):
+    d = deref_all(args[0])
+    p = 10 ** d.s
+    if not is_sym(d.m):
+        return Dec(-((-d.m) // p), 0)
+    return Dec(simp(-((-d.m) / p)), 0)
+
+
+@pattern(r'^<rust_decimal::Decimal as (rust_decimal::prelude::|num_traits::)?ToPrimitive>::to_(i8|i16|i32|i64|i128|isize|u8|u16|u32|u64|u128|usize)$')
+def dec_to_int(it, args, callee):
+    ty = re.match(r'.*::to_(\w+)$', callee).group(1)
+    w, signed = INT_TYPES[ty]
+    d = deref_all(args[0])
+    t = _trunc_div(d.m, 10 ** d.s)
+    lo = -(1 << (w - 1)) if signed else 0
+    hi = (1 << (w - 1)) - 1 if signed else (1 << w) - 1
+    if not is_sym(t):
+        return Some(t) if lo <= t <= hi else NONE
+    if it.truth(z3.And(t >= lo, t <= hi)):
+        return Some(_to_bv_from_int(it, t, w, signed, 'toint'))
+    return NONE
+
+
+@pattern(r'^<rust_decimal::Decimal as (rust_decimal::prelude::|num_traits::)?ToPrimitive>::to_f(32|64)$')
+def dec_to_float(it, args, callee):
+    raise Unsupported('Decimal::to_f32/to_f64 (floating point is outside the encoder)')
+
+
+@model('rust_decimal::Decimal::new', 'Decimal::new')
+def dec_new(it, args, callee):
+    num, scale = args
+    scale = it.concretize(scale, limit=32)
+    if scale > 28:
+        it.panic('Scale exceeds the maximum precision allowed: %d > 28' % scale)
+    m = num if not is_sym(num) else z3.BV2Int(num, True)
+    return Dec(m, scale, ('bv', num, True) if is_sym(num) and scale == 0 else None)
+
+
+@pattern(r'^rust_decimal::Decimal::(try_)?from_i128_with_scale$')
+def dec_from_i128_with_scale(it, args, callee):
+    num, scale = args
+    scale = it.concretize(scale, limit=32)
+    m = num if not is_sym(num) else z3.BV2Int(num, True)
+    ok = scale <= 28 and fits96(it, m)
+    if 'try_' in callee:
+        return Ok(Dec(m, scale)) if ok else Err(Opaque('rust_decimal::Error'))
+    if not ok:
+        it.panic('Decimal::from_i128_with_scale out of range')
+    return Dec(m, scale)
+
+
+@model('rust_decimal::Decimal::set_scale', 'Decimal::set_scale')
+def dec_set_scale(it, args, callee):
+    r, scale = args
+    scale = it.concretize(scale, limit=64)
+    d = rd(r)
+    if scale > 28:
+        return Err(Opaque('rust_decimal::Error'))
+    wr(r, Dec(d.m, scale))
+    return Ok(UNIT)
+
+
+@model('rust_decimal::Decimal::rescale', 'Decimal::rescale')
+def dec_rescale(it, args, callee):
+    raise OutsideModel('Decimal::rescale (rounding)')
+
+
+@pattern(r'^rust_decimal::Decimal::round(_dp|_dp_with_strategy|_sf)?$')
+def dec_round(it, args, callee):
+    raise OutsideModel('Decimal rounding')
+
+
+@pattern(r'^<rust_decimal::Decimal as (Partial)?Ord>::(partial_)?cmp$')
+def dec_cmp_model(it, args, callee):
+    a, b = deref_all(args[0]), deref_all(args[1])
+    if it.truth(dec_cmp(a, b, '<')):
+        r = Enum('Ordering', 0, 'Less')
+    elif it.truth(dec_cmp(a, b, '==')):
+        r = Enum('Ordering', 1, 'Equal')
+    else:
+        r = Enum('Ordering', 2, 'Greater')
+    return Some(r) if 'partial_cmp' in callee else r
+
+
+@pattern(r'^<rust_decimal::Decimal as Ord>::(min|max)$')
+def dec_minmax(it, args, callee):
+    a, b = args
+    lt = it.truth(dec_cmp(a, b, '<'))
+    if callee.endswith('min'):
+        return a if lt else b
+    return b if lt else a
+
+
+@pattern(r'^rust_decimal::Decimal::(saturating|wrapping)_(add|sub|mul)$')
+def dec_saturating(it, args, callee):
+    raise OutsideModel('Decimal saturating/wrapping arithmetic')
+
+
+Interp.CONSTS['rust_decimal::Decimal::TEN'] = Dec(10, 0)
+Interp.CONSTS['rust_decimal::Decimal::TWO'] = Dec(2, 0)
+Interp.CONSTS['rust_decimal::Decimal::ONE_HUNDRED'] = Dec(100, 0)
+Interp.CONSTS['rust_decimal::Decimal::NEGATIVE_ONE'] = Dec(-1, 0)
+Interp.CONSTS['rust_decimal::Decimal::MAX'] = Dec(MAX96, 0)
+Interp.CONSTS['rust_decimal::Decimal::MIN'] = Dec(-MAX96, 0)
+for _k in list(Interp.CONSTS):
+    if _k.startswith('rust_decimal::'):
+        Interp.CONSTS[_k[len('rust_decimal::'):]] = Interp.CONSTS[_k]
